@@ -193,40 +193,52 @@ func isCharacterLevel(fragments []text.TextFragment) bool {
 
 // assembleFragmentsIntoLines groups character fragments into line-based fragments
 func assembleFragmentsIntoLines(fragments []text.TextFragment) []text.TextFragment {
+	assembled, _ := assembleLinesWithMembers(fragments)
+	return assembled
+}
+
+// assembleLinesWithMembers groups character fragments into line-based fragments
+// and also reports, for every assembled line, the indices (into fragments) of
+// the fragments it was built from.
+func assembleLinesWithMembers(fragments []text.TextFragment) ([]text.TextFragment, [][]int) {
 	if len(fragments) == 0 {
-		return nil
+		return nil, nil
 	}
 
 	// Sort by Y (descending for typical PDF coords) then by X
-	sorted := make([]text.TextFragment, len(fragments))
-	copy(sorted, fragments)
+	sorted := make([]int, len(fragments))
+	for i := range sorted {
+		sorted[i] = i
+	}
 	sort.Slice(sorted, func(i, j int) bool {
-		yDiff := sorted[i].Y - sorted[j].Y
-		if absFloat(yDiff) > sorted[i].Height*0.5 {
+		fi, fj := fragments[sorted[i]], fragments[sorted[j]]
+		yDiff := fi.Y - fj.Y
+		if absFloat(yDiff) > fi.Height*0.5 {
 			return yDiff > 0 // Higher Y first
 		}
-		return sorted[i].X < sorted[j].X
+		return fi.X < fj.X
 	})
 
 	// Group into lines by Y proximity
-	var lines [][]text.TextFragment
-	var currentLine []text.TextFragment
+	var lines [][]int
+	var currentLine []int
 
-	for _, frag := range sorted {
+	for _, idx := range sorted {
+		frag := fragments[idx]
 		if len(currentLine) == 0 {
-			currentLine = append(currentLine, frag)
+			currentLine = append(currentLine, idx)
 			continue
 		}
 
 		// Check if same line (Y within tolerance)
-		lastFrag := currentLine[len(currentLine)-1]
+		lastFrag := fragments[currentLine[len(currentLine)-1]]
 		yDiff := absFloat(frag.Y - lastFrag.Y)
 
 		if yDiff <= lastFrag.Height*0.5 {
-			currentLine = append(currentLine, frag)
+			currentLine = append(currentLine, idx)
 		} else {
 			lines = append(lines, currentLine)
-			currentLine = []text.TextFragment{frag}
+			currentLine = []int{idx}
 		}
 	}
 	if len(currentLine) > 0 {
@@ -235,6 +247,7 @@ func assembleFragmentsIntoLines(fragments []text.TextFragment) []text.TextFragme
 
 	// Assemble each line into a single fragment
 	var assembled []text.TextFragment
+	var members [][]int
 	for _, line := range lines {
 		if len(line) == 0 {
 			continue
@@ -242,14 +255,15 @@ func assembleFragmentsIntoLines(fragments []text.TextFragment) []text.TextFragme
 
 		// Sort line by X
 		sort.Slice(line, func(i, j int) bool {
-			return line[i].X < line[j].X
+			return fragments[line[i]].X < fragments[line[j]].X
 		})
 
 		// Build text with smart spacing
 		var textBuilder strings.Builder
 		var lastEndX float64
 
-		for i, frag := range line {
+		for i, idx := range line {
+			frag := fragments[idx]
 			if i > 0 {
 				gap := frag.X - lastEndX
 				// Add space if gap is significant (> 30% of font size)
@@ -262,9 +276,10 @@ func assembleFragmentsIntoLines(fragments []text.TextFragment) []text.TextFragme
 		}
 
 		// Compute bounding box
-		first, last := line[0], line[len(line)-1]
+		first, last := fragments[line[0]], fragments[line[len(line)-1]]
 		minY, maxY := first.Y, first.Y
-		for _, f := range line {
+		for _, idx := range line {
+			f := fragments[idx]
 			if f.Y < minY {
 				minY = f.Y
 			}
@@ -282,9 +297,10 @@ func assembleFragmentsIntoLines(fragments []text.TextFragment) []text.TextFragme
 			FontSize: first.FontSize,
 			FontName: first.FontName,
 		})
+		members = append(members, line)
 	}
 
-	return assembled
+	return assembled, members
 }
 
 // candidate represents a potential header/footer text
@@ -693,8 +709,29 @@ func (r *HeaderFooterResult) FilterFragments(pageIndex int, fragments []text.Tex
 
 	var filtered []text.TextFragment
 
+	if charLevel {
+		// Individual characters cannot match a header/footer text. Assemble
+		// them into lines exactly as detection does (preprocessPages), test
+		// each line, and remove the characters of the matching lines only.
+		lines, members := assembleLinesWithMembers(fragments)
+		remove := make([]bool, len(fragments))
+		for i, line := range lines {
+			if r.isInHeaderFooter(pageIndex, line, refMinY, refMaxY, headerRegion, footerRegion, invertedCoords) {
+				for _, idx := range members[i] {
+					remove[idx] = true
+				}
+			}
+		}
+		for i, frag := range fragments {
+			if !remove[i] {
+				filtered = append(filtered, frag)
+			}
+		}
+		return filtered
+	}
+
 	for _, frag := range fragments {
-		if r.isInHeaderFooter(pageIndex, frag, refMinY, refMaxY, headerRegion, footerRegion, invertedCoords, charLevel) {
+		if r.isInHeaderFooter(pageIndex, frag, refMinY, refMaxY, headerRegion, footerRegion, invertedCoords) {
 			continue
 		}
 		filtered = append(filtered, frag)
@@ -704,7 +741,7 @@ func (r *HeaderFooterResult) FilterFragments(pageIndex int, fragments []text.Tex
 }
 
 // isInHeaderFooter checks if a fragment is in a detected header/footer region
-func (r *HeaderFooterResult) isInHeaderFooter(pageIndex int, frag text.TextFragment, minY, maxY, headerRegion, footerRegion float64, invertedCoords, charLevel bool) bool {
+func (r *HeaderFooterResult) isInHeaderFooter(pageIndex int, frag text.TextFragment, minY, maxY, headerRegion, footerRegion float64, invertedCoords bool) bool {
 	// Check headers
 	for _, header := range r.Headers {
 		if !containsPage(header.PageIndices, pageIndex) {
@@ -718,11 +755,6 @@ func (r *HeaderFooterResult) isInHeaderFooter(pageIndex int, frag text.TextFragm
 			distFromTop = maxY - (frag.Y + frag.Height)
 		}
 		if distFromTop < headerRegion {
-			// For character-level PDFs, use position-only filtering since
-			// individual characters won't match the assembled header text
-			if charLevel {
-				return true
-			}
 			if textsMatch(frag.Text, header.Text, header.IsPageNumber) {
 				return true
 			}
@@ -742,10 +774,6 @@ func (r *HeaderFooterResult) isInHeaderFooter(pageIndex int, frag text.TextFragm
 			distFromBottom = frag.Y - minY
 		}
 		if distFromBottom < footerRegion {
-			// For character-level PDFs, use position-only filtering
-			if charLevel {
-				return true
-			}
 			if textsMatch(frag.Text, footer.Text, footer.IsPageNumber) {
 				return true
 			}
